@@ -621,6 +621,215 @@ def r18_coupling_switch(idx, r):
               msg="couplingIsActive depends on more than the tightCoupling setting: with coupling switched on, nodes at which it answers False get neither their coupled interaction nor their database write")
 
 
+def _r_count(entries):
+    """number of values a settings list written with the R repeat shorthand ('R4' / '4R' = four more of the previous value) stands for"""
+    n = 0
+    for e in entries:
+        s = str(e).upper()
+        n += int(s.replace("R", "")) if "R" in s else 1
+    return n
+
+
+def _r_expand(entries):
+    out = []
+    for e in entries:
+        s = str(e).upper()
+        if "R" in s:
+            out += [out[-1]] * int(s.replace("R", ""))
+        else:
+            out.append(float(s))
+    return out
+
+
+def _history_reference(cs):
+    """Independent statement of what a cycle history means: per cycle (burn steps, power fraction of each burn step, days at power =
+    availability x cycle length).  Detailed input: a cycle gives `step days` (R shorthand allowed), `cumulative days`, or `burn steps` +
+    `cycle length`; `power fractions` (R shorthand allowed) default to full power for every burn step."""
+    steps, fracs, days = [], [], []
+    if cs["cycles"]:
+        for c in cs["cycles"]:
+            if "step days" in c:
+                n, d = _r_count(c["step days"]), sum(_r_expand(c["step days"]))
+            elif "cumulative days" in c:
+                n, d = len(c["cumulative days"]), (float(c["cumulative days"][-1]) if c["cumulative days"] else 0.0)
+            else:
+                n, d = c["burn steps"], c["cycle length"] * c.get("availability factor", 1)
+            steps.append(n)
+            days.append(d)
+            fracs.append(_r_expand(c["power fractions"]) if "power fractions" in c else [1.0] * n)
+    else:
+        nc = cs["nCycles"]
+        n = cs["burnSteps"] or 0
+        av = _r_expand(cs["availabilityFactors"]) if cs["availabilityFactors"] else [cs["availabilityFactor"]] * nc
+        ln = _r_expand(cs["cycleLengths"]) if cs["cycleLengths"] else [cs["cycleLength"]] * nc
+        pf = _r_expand(cs["powerFractions"]) if cs["powerFractions"] else [1.0] * nc
+        steps, days, fracs = [n] * nc, [a * b for a, b in zip(av, ln)], [[v] * n for v in pf]
+    return steps, fracs, days
+
+
+def _cycle_histories():
+    """(name, settings as the cycle-history helpers read them, helpers that a reported defect of today's tree leaves undecided for this history or None)"""
+    base = {"cycles": [], "nCycles": 1, "burnSteps": 4, "cycleLength": 365.25, "cycleLengths": None, "availabilityFactor": 1.0, "availabilityFactors": None, "powerFractions": None}
+
+    def h(**kw):
+        d = dict(base)
+        d.update(kw)
+        return d
+    return [
+        ("simple:3-cycles-x-4-steps-defaults", h(nCycles=3, burnSteps=4, cycleLength=100.0, availabilityFactor=0.9), None),
+        ("simple:per-cycle-lists-with-R-shorthand", h(nCycles=3, burnSteps=2, cycleLengths=[100.0, "2R"], availabilityFactors=[0.5, "R2"], powerFractions=[1.0, 0.5, 0.0]), None),
+        ("simple:1-cycle-zero-burn-steps", h(nCycles=1, burnSteps=0, cycleLength=10.0), None),
+        ("simple:3-cycles-zero-burn-steps", h(nCycles=3, burnSteps=0, cycleLength=10.0), ("getBurnSteps", "getStepLengths", "getNodesPerCycle")),
+        ("detailed:step-days|R-step-days-default-fractions|cumulative-days|burn-steps+length", h(nCycles=4, cycles=[
+            {"step days": ["1", "2"], "power fractions": ["0.5", "0.6"]},
+            {"step days": ["3", "R4"]},
+            {"cumulative days": [2, 5, 6]},
+            {"cycle length": 10.0, "burn steps": 2, "availability factor": 0.5}]), None),
+        ("detailed:named-cycles-R-fractions-availability", h(nCycles=4, cycles=[
+            {"name": "A", "step days": ["10", "2R"], "power fractions": ["1.0", "R2"], "availability factor": 0.8},
+            {"name": "B", "cumulative days": [5.0]},
+            {"burn steps": 4, "cycle length": 20.0, "power fractions": ["0.0", "3R"]},
+            {"cumulative days": [1, 2, 3, 4, 7], "availability factor": 0.5}]), None),
+        ("detailed:single-cycle-one-step", h(nCycles=1, cycles=[{"step days": ["7"]}]), None),
+        ("detailed:burn-steps-default-fractions-then-R-step-days", h(nCycles=2, cycles=[
+            {"burn steps": 3, "cycle length": 30.0},
+            {"step days": ["5", "R5"], "availability factor": 0.25}]), None),
+    ]
+
+
+def r19_history_evaluated(idx, r):
+    """A run visits, in cycle c, the time nodes 0..burnSteps[c] and reads for every burn step its step length and its power fraction.  The
+    cycle-history helpers of armi.utils that answer these per cycle (getBurnSteps, getStepLengths, getPowerFractions, getNodesPerCycle,
+    getCycleLengths x getAvailabilityFactors) are EVALUATED (MiniEval; calls between them and into armi.utils.mathematics are followed through
+    the index) on eight cycle histories - simple and detailed input, R repeat shorthand in step days / power fractions / per-cycle lists,
+    cumulative days, burn steps + cycle length, explicit and default power fractions, zero burn steps - and compared with an independent
+    statement of what the history means: one entry per cycle, in every cycle as many step lengths and power fractions as burn steps, one node
+    more than burn steps, and step lengths that sum to availability x cycle length."""
+    import copy
+    from ..index import FuncInfo
+    from ..minieval import MiniEval, Raised
+
+    class _Settings(dict):
+        pass
+
+    class _H(MiniEval):
+        def __init__(self, mod, depth=0):
+            super().__init__()
+            self.mod, self.depth = mod, depth
+
+        def _call(self, tgt, e, env):
+            if self.depth > 12:
+                raise AnalysisError(f"cycle-history evaluation: call depth exceeded at `{norm(e)[:50]}`")
+            a = tgt.node.args
+            if a.vararg or a.kwarg or a.kwonlyargs or any(isinstance(x, ast.Starred) for x in e.args) or any(k.arg is None for k in e.keywords):
+                raise AnalysisError(f"cycle-history evaluation: call `{norm(e)[:50]}` outside the fragment")
+            ps = tgt.params()
+            bound = {}
+            for p, d in zip(ps[len(ps) - len(a.defaults):], a.defaults):
+                bound[p] = _H(tgt.module, self.depth + 1)._ev(d, {})
+            if len(e.args) > len(ps):
+                raise Raised(f"TypeError: {tgt.name}() takes {len(ps)} arguments")
+            for p, x in zip(ps, e.args):
+                bound[p] = self._ev(x, env)
+            for k in e.keywords:
+                if k.arg not in ps:
+                    raise Raised(f"TypeError: {tgt.name}() got an unexpected keyword argument {k.arg}")
+                bound[k.arg] = self._ev(k.value, env)
+            if set(bound) != set(ps):
+                raise Raised(f"TypeError: {tgt.name}() missing arguments {sorted(set(ps) - set(bound))}")
+            return _H(tgt.module, self.depth + 1).run(tgt.node, bound)[0]
+
+        def _ev(self, e, env):
+            if isinstance(e, ast.Subscript) and not isinstance(e.slice, ast.Slice):
+                v, k = self._ev(e.value, env), self._ev(e.slice, env)
+                if isinstance(v, dict):
+                    if k in v:
+                        return v[k]
+                    if isinstance(v, _Settings):
+                        raise AnalysisError(f"cycle-history evaluation: the setting `{k}` is read, which the histories of R15.19 do not define")
+                    raise Raised(f"KeyError: {k!r}")
+                if isinstance(v, (list, tuple, str)) and isinstance(k, int) and not isinstance(k, bool):
+                    if -len(v) <= k < len(v):
+                        return v[k]
+                    raise Raised(f"IndexError: index {k} of a sequence of {len(v)}")
+                raise AnalysisError(f"cycle-history evaluation: subscript `{norm(e)[:60]}` outside the fragment")
+            if isinstance(e, ast.Compare) and len(e.ops) == 1 and isinstance(e.ops[0], (ast.In, ast.NotIn)):
+                a, b = self._ev(e.left, env), self._ev(e.comparators[0], env)
+                if isinstance(b, (dict, list, tuple)) or (isinstance(a, str) and isinstance(b, str)):
+                    return (a in b) == isinstance(e.ops[0], ast.In)
+                raise AnalysisError(f"cycle-history evaluation: membership `{norm(e)[:60]}` outside the fragment")
+            if isinstance(e, ast.Call):
+                f = e.func
+                if isinstance(f, ast.Attribute) and f.attr in ("keys", "values", "items", "get", "count", "replace", "strip") and not e.keywords:
+                    recv = self._ev(f.value, env)
+                    args = [self._ev(x, env) for x in e.args]
+                    if isinstance(recv, dict):
+                        if f.attr in ("keys", "values", "items") and not args:
+                            return {"keys": list(recv), "values": list(recv.values()), "items": [(k, v) for k, v in recv.items()]}[f.attr]
+                        if f.attr == "get" and 1 <= len(args) <= 2:
+                            if isinstance(recv, _Settings) and args[0] not in recv:
+                                raise AnalysisError(f"cycle-history evaluation: the setting `{args[0]}` is read, which the histories of R15.19 do not define")
+                            return recv.get(*args)
+                    if isinstance(recv, str) and f.attr in ("count", "replace", "strip") and all(isinstance(x, str) for x in args):
+                        return getattr(recv, f.attr)(*args)
+                    raise AnalysisError(f"cycle-history evaluation: call `{norm(e)[:60]}` outside the fragment")
+                d = dotted(f)
+                tgt = idx.resolve_name(self.mod, d) if d else None
+                if isinstance(tgt, FuncInfo) and tgt.cls is None:
+                    return self._call(tgt, e, env)
+            return super()._ev(e, env)
+
+    m = idx.module(UT)
+    helpers = {n: idx.func(f"{UT}.{n}") for n in ("getBurnSteps", "getStepLengths", "getPowerFractions", "getNodesPerCycle", "getCycleLengths", "getAvailabilityFactors")}
+
+    def evaluate(name, cs):
+        f = helpers[name]
+        try:
+            return _H(m).run(f.node, {f.params()[0]: _Settings(copy.deepcopy(cs))})[0]
+        except Raised as ex:
+            return f"raises {ex}"
+
+    def close(a, b):
+        return isinstance(a, (int, float)) and abs(a - b) <= 1e-9 * max(1.0, abs(b))
+
+    ZERO_STEPS = ("armi/utils/__init__.py _getStepAndCycleLengths: with the simple input `nCycles: 3, burnSteps: 0` the step lengths are `[[]]` - ONE cycle - so getBurnSteps gives [0] and "
+                  "getNodesPerCycle [1] for a three-cycle run: Operator.burnSteps raises ValueError and getCumulativeNodeNum(2, 0, cs) is 1 instead of 2 (defect of today's tree, reported; not decided here)")
+    for hname, cs, defect in _cycle_histories():
+        steps, fracs, days = _history_reference(cs)
+        nc = cs["nCycles"]
+        if not (len(steps) == len(fracs) == len(days) == nc):
+            raise AnalysisError(f"R15.19: history {hname} is not a history of {nc} cycles")
+        got = {n: evaluate(n, cs) for n in helpers}
+        verdicts = []
+        g = got["getBurnSteps"]
+        verdicts.append(("getBurnSteps", g == steps,
+                         f"getBurnSteps gives {g!r}, the history has {steps} burn steps per cycle: the node loop of a cycle runs over the wrong number of time nodes"))
+        g = got["getStepLengths"]
+        shape = isinstance(g, list) and [len(x) if isinstance(x, list) else None for x in g] == steps
+        verdicts.append(("getStepLengths", shape and all(close(sum(x), d) for x, d in zip(g, days) if x),  # a cycle without burn steps has no step to carry its days
+                         f"getStepLengths gives {g!r}; per cycle there must be {steps} step lengths, summing (where there are any) to availability x cycle length = {days}"))
+        g = got["getPowerFractions"]
+        nfr = [len(x) if isinstance(x, list) else None for x in g] if isinstance(g, list) else g
+        firstbad = next((c for c in range(nc) if not isinstance(nfr, list) or c >= len(nfr) or nfr[c] != steps[c]), None)
+        verdicts.append(("getPowerFractions", g == fracs,
+                         (f"getPowerFractions gives {nfr} power fractions per cycle for {steps} burn steps (cycle {firstbad}): burn steps and power fractions of that cycle do not match one to one - a burn step is left "
+                          "without its power fraction and Operator refuses the history as inconsistent (ValueError), so none of its time nodes is visited" if firstbad is not None else f"getPowerFractions gives {g!r}, the history states {fracs}")))
+        g = got["getNodesPerCycle"]
+        verdicts.append(("getNodesPerCycle", g == [s + 1 for s in steps], f"getNodesPerCycle gives {g!r}; a run visits burn steps + 1 = {[s + 1 for s in steps]} nodes per cycle, and the cumulative numbering counts with this list"))
+        ln, av = got["getCycleLengths"], got["getAvailabilityFactors"]
+        okl = isinstance(ln, list) and isinstance(av, list) and len(ln) == len(av) == nc and all(close(a * b, d) for a, b, d in zip(ln, av, days))
+        verdicts.append(("getCycleLengths*getAvailabilityFactors", okl, f"cycle lengths {ln!r} x availability factors {av!r} are not the days at power {days} that the step lengths of each cycle sum to"))
+        for hn, ok, msg in verdicts:
+            key = f"{hname}:{hn}"
+            at = helpers[hn.split("*")[0]]
+            if ok:
+                r.ok(key, at)
+            elif defect is not None and hn in defect:
+                r.undecided(key, at, ZERO_STEPS)
+            else:
+                r.violate(key, at, f"history `{hname}`: {msg}")
+
+
 def run(idx, chk):
     chk.explanation = (
         "C15: the operator's main, cycle and node loops, _interactAll, the six interactAllX entry points, getActiveInterfaces, the tight "
@@ -661,3 +870,7 @@ def run(idx, chk):
                  necessary="the coupled iteration of a node runs until every defined coupler has converged or the cap is reached")
     chk.run_rule("R15.18", "couplingIsActive answers from the tightCoupling setting alone", lambda r: r18_coupling_switch(idx, r), floor=2,
                  necessary="every enabled interface gets its coupled interaction at every node when coupling is on")
+    chk.run_rule("R15.19", "cycle-history helpers evaluated on eight histories: per cycle as many step lengths and power fractions as burn steps, burn steps + 1 nodes, steps sum to availability x length",
+                 lambda r: r19_history_evaluated(idx, r), floor=37,
+                 necessary="'every time node from the start node to the last' of every cycle history (simple and detailed, R shorthand, default power fractions) has its step length and power fraction; "
+                           "nodes are numbered in the order a run visits them; step lengths sum to availability times cycle length")
